@@ -623,7 +623,7 @@ RENDER_HARNESSES = {"render": h_render, "render-rt": h_render, "render-lru": h_r
 # The templates are compiled before the threads start; the threads only render.
 
 FIRST_USE_TEXT = "${a | entity}|${a | h}|${a | x}|${a | u}|${b | trim, entity}|<%block filter='entity'>${a}</%block>"
-FIRST_USE_ARGS = [{"a": "\u00e9<\"&\u20ac0", "b": " \u00df\u2026 "}, {"a": "\u00fc>'&\u2122 1", "b": "\t\u00f1\u2020"}, {"a": "\u00a92", "b": "\u00ab\u00bb"}]
+FIRST_USE_ARGS = [{"a": "\u00e9<\"&\u20ac\u0436\u4e2d0", "b": " \u00df\u2026\u0436 "}, {"a": "\u00fc>'&\u2122\u0436\u4e2d 1", "b": "\t\u00f1\u2020\u4e2d"}, {"a": "\u00a9\u4e2d\u04362", "b": "\u00ab\u00bb\u4e2d"}]  # named-entity characters and characters without one
 
 
 def fresh_mako():
